@@ -150,7 +150,11 @@ func parseIP(b []byte, outer bool) (ipView, bool) {
 		v.payload = b[v.hl:]
 		v.wellForm = true
 		if outer {
-			if tl != len(b) || csum(b[:v.hl]) != 0 || v.mf {
+			// bytes behind the datagram are link-layer padding when the whole frame payload is no longer than the Ethernet
+			// minimum (46 bytes): a real NIC delivers every short reply that way (echo reply 29, RST 40, MSS-only SYN-ACK 44
+			// bytes), so such a frame is as well-formed as its datagram
+			padded := tl >= v.hl && tl < len(b) && len(b) <= 46
+			if (tl != len(b) && !padded) || csum(b[:v.hl]) != 0 || v.mf {
 				v.wellForm = false
 			}
 			if tl >= v.hl && tl < len(b) {
